@@ -59,6 +59,13 @@ def check(run):
     cache(run, p, km)
     datelang(run, p)
     rexclosure(run, p)
+    from .common import observed_rule
+    calc = p.cls('PandasConstraintCalculator')
+    n = observed_rule(run, 'C01-OBSERVED', p, list(calc.methods.values()),
+                      'discovery and verification measure the same thing, the values present: no calc_* method of the pandas '
+                      'calculator reads a categorical column\'s declared levels (.cat.categories, an unfiltered value_counts()) - '
+                      'a count or length taken from unused levels on one side fails the constraint discovered on the other')
+    run.floor('C01-OBSERVED', n, 15)
     # the .tdda file written by discovery is what verification reads
     from .c09 import strip
     strip(run, p)
